@@ -65,13 +65,13 @@ fn scenario(ctx: &Ctx, idx: u64) -> Report {
         let horizon_class = match rng.gen_range(0..100) {
             0..=59 => 0, // seconds to minutes
             60..=86 => 1, // token rotation / node ageing range
-            87..=96 => 2, // around 24 h
+            87..=94 => 2, // around 24 h
             _ => 3,      // several days with re-announces
         };
         let n = match horizon_class {
             0 | 1 => rng.gen_range(2..=9usize),
             2 => rng.gen_range(2..=ctx.tier.pick(4usize, 6)),
-            _ => rng.gen_range(2..=3usize),
+            _ => rng.gen_range(2..=4usize),
         };
         let ih: Id = gen::rand_id(&mut rng);
         let clustered = rng.gen_bool(0.4);
@@ -81,7 +81,16 @@ fn scenario(ctx: &Ctx, idx: u64) -> Report {
         net.set_log_enabled(false);
         net.set_send_yield(*[0.0, 0.0, 0.3, 1.0].choose(&mut rng).unwrap());
 
-        let addrs: Vec<SocketAddr> = (0..n).map(|i| node_addr(v6, 10 + i as u32)).collect();
+        // in IPv6 networks every fourth node lives at an IPv4-mapped address (dual-stack socket)
+        let addrs: Vec<SocketAddr> = (0..n)
+            .map(|i| {
+                if v6 && i % 4 == 3 {
+                    SocketAddr::new(std::net::Ipv4Addr::new(10, 0, 0, 10 + i as u8).to_ipv6_mapped().into(), 6881)
+                } else {
+                    node_addr(v6, 10 + i as u32)
+                }
+            })
+            .collect();
         let mut nodes: Vec<NodeInfo> = Vec::new();
         for i in 0..n {
             let mut cfg = NodeCfg::new(addrs[i]);
@@ -179,7 +188,14 @@ fn scenario(ctx: &Ctx, idx: u64) -> Report {
                     break;
                 }
                 sleep_us(at.saturating_sub(net.now())).await;
+                // not everybody re-announces every time: each announcer's 24 hours run from its own
+                // last announce (the others expire on their own schedule)
+                let all_again = rng.gen_bool(0.4);
                 for &a in &announcers {
+                    if !all_again && rng.gen_bool(0.5) {
+                        report.count("re_announce_rounds_skipped_by_an_announcer");
+                        continue;
+                    }
                     if !all_know_each_other(&nodes).await {
                         report.count("precondition_miss_step_skipped");
                         continue;
